@@ -189,9 +189,9 @@ func vfC04Timing(e *vfEnv, r *vfResult, idx int) { //nolint:cyclop
 			// traffic resumes: an authenticated request from the selected remote refreshes liveness
 			m := s.P.build(s.A, vfReqOpts{Role: map[bool]string{true: "controlled", false: "controlling"}[controlling], Tie: s.P.tie})
 			dg := s.P.send(s.P.socks[0], s.aSockets()[0], m.Raw)
+			t1 = time.Now() // BEFORE the delivery: the liveness timestamp is set somewhere after this instant
 			s.deliver(dg.ID, false)
 			s.dropAll()
-			t1 = time.Now()
 			s.tickSide(s.A)
 			if time.Since(t1) < d/2 || d == 0 {
 				sn2 := s.A.snapshot()
